@@ -202,3 +202,13 @@ def check_whole_range(chk, rule, sort_call, where, key, name):
                 detail = ''
     chk.ob(rule, '%s sorts the whole container' % name, where, ok, detail, key=key)
     return ok
+
+
+def norm_range_arg(t):
+    """std::begin(X) / std::end(X) / X.cbegin() ... -> X.begin() / X.end() (textual forms of the same iterator)"""
+    import re
+    t = t.replace(' ', '')
+    m = re.match(r'^(?:std::)?c?(begin|end)\((.+)\)$', t)
+    if m:
+        return '%s.%s()' % (m.group(2), m.group(1))
+    return re.sub(r'\.c(begin|end)\(\)$', r'.\1()', t)
